@@ -836,6 +836,17 @@ func spreadResidue(r *ring.Ring, p0, buff, p1 ring.Poly, level int) {
 	}
 }
 
+// LOOPALIAS control: one buffer filed under every index
+func drawCoeffs(r *ring.Ring, u ring.Sampler, t int) []ring.Poly {
+	gen := make([]ring.Poly, t)
+	coeff := r.NewPoly()
+	for i := 1; i < t; i++ {
+		u.Read(coeff)
+		gen[i] = coeff
+	}
+	return gen
+}
+
 // INDEG control: the first two components of the input, whatever its degree
 func (e fixEvaluator) SumTwo(ctIn, opOut *rlwe.Ciphertext) {
 	e.r.Add(ctIn.Value[0], ctIn.Value[1], opOut.Value[0])
